@@ -3,7 +3,7 @@ CONSTANTS
   KeySeq <- KeySeqC
   Vals <- ValsL
   Acts <- ActsC44
-  MaxOps = 8
+  MaxOps = 7
   DiskInits <- DiskEmpty6
   Contracts <- ContractsC
   Track = TRUE
